@@ -3,13 +3,16 @@ import Driver.C12
 import Driver.C02
 import Driver.C20
 import Driver.C19
+import Driver.Auth
 open Driver
 
 def machines : List (String × Machine × Machine) :=
   [("C12", C12.machine, C12.judge),
    ("C02", C02.machine, C02.judge),
    ("C20", C20.machine, C20.judge),
-   ("C19", C19.machine, C19.judge)]
+   ("C19", C19.machine, C19.judge),
+   ("C01", Auth.machine, Auth.judgeC01),
+   ("C03", Auth.machine, Auth.judgeC03)]
 
 def main (args : List String) : IO UInt32 := do
   match args with
